@@ -116,10 +116,17 @@ func (db *DB) repairCompactions() error {
 // this reads all existing sstables and adds them (if any), along with the generation number
 func (db *DB) reconstructSSTables() error {
 	var tablePaths []string
+	var unfinishedFlushes []string
 
 	err := filepath.Walk(db.basePath, func(path string, info os.FileInfo, err error) error {
 		if err != nil {
 			return err
+		}
+
+		if info.IsDir() && strings.HasPrefix(info.Name(), MemstoreFlushPathPrefix) {
+			// a flush that was interrupted before its table was complete, its records are still in the write-ahead log
+			unfinishedFlushes = append(unfinishedFlushes, path)
+			return filepath.SkipDir
 		}
 
 		if info.IsDir() && strings.HasPrefix(info.Name(), SSTablePrefix) {
@@ -130,6 +137,14 @@ func (db *DB) reconstructSSTables() error {
 	})
 	if err != nil {
 		return err
+	}
+
+	for _, p := range unfinishedFlushes {
+		log.Printf("found unfinished memstore flush to be deleted in %v", p)
+		err := os.RemoveAll(p)
+		if err != nil {
+			return err
+		}
 	}
 
 	if len(db.sstableManager.allSSTableReaders) != 0 {
